@@ -35,9 +35,10 @@ RULE = ('cases: pad of 2-D arrays (all source/target sizes 1..9, every grow/shri
         'same-shape/identity case')
 TRUSTED = ['NumPy slicing, reshape(...).sum, np.any/np.where, np.clip/np.minimum semantics as modelled by hand in Model/Geometry.lean',
            'libm sqrt/sin/cos agree with NumPy to 1e-9 (drawn shapes are compared with the model run at Float)']
-UNPROVEN = [            'hex_segments: equal segment area up to edge sampling (oracle only)']
+UNPROVEN = ['hex_segments: equal segment area up to edge sampling (checked on the real code by the oracle only)']
 ASSUMPTIONS = ['shape parameters, shifts and radii are dyadic rationals of moderate size so that mesh coordinates are exact in float64',
-               'non-overlap is judged on non-antialiased masks; seg_gap = 0 is the recorded known finding KF-C20-hex-gap0-shared-edge']
+               'non-overlap is judged on non-antialiased masks; seg_gap = 0 is the recorded known finding KF-C20-hex-gap0-shared-edge',
+               'border clearance is stated for pad >= 2 (the default); pad < 2 is not claimed']
 
 # ------------------------------------------------------------------------------------------ generation
 def _ints(rng, n, lo=-4, hi=5): return [int(x) for x in rng.integers(lo, hi, n)]
